@@ -167,6 +167,8 @@ def plans(prop, tier):
             P.append((k, False, 'ret', 0, (), None, 'us_none'))        # init_state 5, last value assigned in the child: None
             P.append((k, False, 'ret', 0, (), None, 'us_zero'))        # init_state 7, no assignment in the child at all
             if k != 'thread':
+                P.append((k, False, 'ret', 0, (), None, 'us_inplace'))     # init_state []: a container updated in place and assigned back
+                P.append((k, False, 'exc', 0, (), None, 'us_inplace'))
                 P.append((k, False, 'ret', 0, (), None, 'us_slow'))    # the last state takes 2 s to rebuild in the parent; the caller polls
             if k != 'thread':
                 P.append((k, False, 'linger', 0, (), None, None))      # reported, but the child process lingers
@@ -237,6 +239,8 @@ def run(prop, tier, replay=None):
                 bc.update(observe=None, restart_chain=2)
             if bc['observe'] == 'us_none':
                 bc.update(observe=None, us_none=True, init_state=5)
+            if bc['observe'] == 'us_inplace':
+                bc.update(observe=None, us_inplace=True, init_state=[])
             if bc['observe'] == 'us_slow':
                 bc.update(observe='poll', us_slow=True)
             if bc['observe'] == 'us_zero':
